@@ -11,7 +11,7 @@ RULE = (
     "fixed_rows(io.StringIO(text, newline='')). Oracle per case: soundness - no exception other than DataFormatError, every "
     "item has its declared width, and the input can be rebuilt from the rows by inserting delimiters the setting permits "
     "(final one optional); completeness - inputs that are records of non-delimiter characters joined by permitted "
-    "delimiters are accepted and cut exactly by the widths. The same strings up to length 5 (thorough: 6) are read through cutplace.Reader from a character stream under a CID that declares the widths and the line delimiter. Plus histories: a read abandoned after 1-2 rows (generator closed, dropped or kept) followed by a complete read of another well-formed input. Plus the same texts from streams whose name attribute is None, empty, a number or bytes (spooled temporary files, open(fd)), through fixed_rows and cutplace.rows. Plus random well-formed files of 5-40 records with one "
+    "delimiters are accepted and cut exactly by the widths. The same strings up to length 5 (thorough: 6) are read through cutplace.Reader (its three error modes in turn) from a character stream under a CID that declares the widths and the line delimiter. Plus histories: a read abandoned after 1-2 rows (generator closed, dropped or kept) followed by a complete read of another well-formed input. Plus the same texts from streams whose name attribute is None, empty, a number or bytes (spooled temporary files, open(fd)), through fixed_rows and cutplace.rows. Plus random well-formed files of 5-40 records with one "
     "character deleted / inserted / replaced at every offset, read from streams and from real files (utf-8, cp1252). "
     "Cases are distinct by construction (enumeration); all non-empty inputs count as non-trivial."
 )
@@ -153,7 +153,13 @@ def through_reader(source, encoding, fields, setting):
         name = {"\n": "LF", "\r": "CR", "\r\n": "CRLF", "any": "Any", None: "None"}[setting]
         cid.read("<c13>", [["D", "Format", "Fixed"], ["D", "Line delimiter", name]] + [["F", n, "", "", str(w), "Text", ""] for n, w in fields])
         READER_CIDS[key] = cid
-    return cutplace.Reader(cid, source).rows()
+    # (in any of the three error modes: no row of free text is ever rejected, so they have to agree - and a malformed
+    # container ends the pass in every mode)
+    READER_CALLS[0] += 1
+    return cutplace.Reader(cid, source, on_error=("raise", "continue", "yield")[READER_CALLS[0] % 3]).rows()
+
+
+READER_CALLS = [0]
 
 
 def run(ctx):
